@@ -129,9 +129,9 @@ func init() {
 	reg(&Prop{ID: "C03", Level: "fault_enumeration",
 		Quick:    Tier{Cases: 8000, PerJob: 500, Seconds: 70},
 		Thorough: Tier{Cases: 160000, PerJob: 2000, Seconds: 1500},
-		Rule:     "one case = backend {LocalStore, RemoteHTTP client -> in-process transport -> HTTPHandler -> LocalStore, casync protocol client <-> ProtocolServer over a pipe (server store configured as `desync pull` does), S3Store against an in-harness S3 endpoint on loopback} x upstream format {compressed, uncompressed} x server compression/verification settings x wrapper stack {none, cache, cache+repair, router, failover group, dedup queue, swap(dedup(cache(router(failover))))} x chunk (1..300 bytes, 1/4 up to 4 KiB); the stored object is then corrupted in every way of the enumeration and fetched through a fresh stack each time: a bit flip in EVERY byte and truncation to EVERY length when the stored object is <= 512 bytes (64 sampled each otherwise), replaced by another valid object / a valid zstd frame of other data / raw bytes / the other format, garbage, junk before or after; plus a corrupted cache entry and one extract or cat pipeline over a poisoned store; oracle: error, or data hashing to the requested ID (pipelines: error or exactly the blob); sub_evaluations = faulted fetches; distinct = distinct (backend, formats, stack, tape); non-trivial = a fault was applied",
+		Rule:     "one case = backend {LocalStore, RemoteHTTP client -> in-process transport -> HTTPHandler -> LocalStore, casync protocol client <-> ProtocolServer over a pipe (server store configured as `desync pull` does), S3Store against an in-harness S3 endpoint on loopback, SFTPStore against an sftp server (pkg/sftp) spoken over stdio by a CASYNC_SSH_PATH shim} x upstream format {compressed, uncompressed} x server compression/verification settings x wrapper stack {none, cache, cache+repair, router, failover group, dedup queue, swap(dedup(cache(router(failover))))} x chunk (1..300 bytes, 1/4 up to 4 KiB); the stored object is then corrupted in every way of the enumeration and fetched through a fresh stack each time: a bit flip in EVERY byte and truncation to EVERY length when the stored object is <= 512 bytes (64 sampled each otherwise), replaced by another valid object / a valid zstd frame of other data / raw bytes / the other format, garbage, junk before or after; plus a corrupted cache entry and one extract or cat pipeline over a poisoned store; oracle: error, or data hashing to the requested ID (pipelines: error or exactly the blob); sub_evaluations = faulted fetches; distinct = distinct (backend, formats, stack, tape); non-trivial = a fault was applied",
 		Assumptions: []string{
-			"the SFTP backend is not exercised (it constructs chunks through the same NewChunkFromStorage call; see DESIGN.md); the S3 endpoint is a minimal path-style server written for the harness, signatures are not checked",
+			"the S3 endpoint is a minimal path-style server written for the harness, signatures are not checked",
 			"no hop facing the caller has SkipVerify set; server-side stores may (the client hop verifies)",
 		},
 		Real: []string{"NewChunkFromStorage", "Chunk.Data/ID", "LocalStore", "RemoteHTTP", "HTTPHandler", "Protocol", "ProtocolServer", "Cache", "RepairableCache", "StoreRouter", "FailoverGroup", "DedupQueue", "SwapStore", "AssembleFile", "IndexPos", "S3Store (minio client)"},
